@@ -6,6 +6,10 @@ hooks_commits = subprocess.run(["git","-C","/repo","log","--format=%h %s"],captu
 hook_commits = [l.split()[0] for l in hooks_commits if l.split(" ",1)[1].startswith("verif:")]
 
 CHECKS = {
+ "C18": dict(engine="E2 e2e", category="model_checking", technique="explicit-state exploration of breakpoint histories on the same programs linked as classic (non-PIE) and position independent executables",
+   text="The C01 exploration (stops = projection of the reference single-step trace, by address / file:line / function, with restart), the text-patch invariant and the backtrace oracle are run on the same generated programs linked non-PIE (ET_EXEC with libc as a dynamic dependency) and PIE; depth 4 (quick: 1 program x 2 link modes) / 5 (thorough: 4 programs x 2 link modes x 2 toolchains).",
+   note="Only the PIE / non-PIE half of the property: shared libraries (startup, dlopen/dlclose), deferred breakpoints and `sharedlib info` are not covered (they need std/libc-based debuggees with dlopen, not built in this round).",
+   design="3/C18"),
  "C16": dict(engine="E2 e2e (in-worker sweep)", category="exploration", technique="bounded-exhaustive sweep of argument tuples for injected calls at two stop positions, with before/after comparison of registers, text and mappings",
    text="At two stops (main, inside a callee) every call c<k>(args) for k = 0,1,2,3,6 over boundary argument tuples (134 calls quick, 2x350 thorough) is injected with Debugger::call: all registers incl. fs/gs base, the text and /proc/pid/maps are equal before and after, the target's own counter grows by exactly one and its argument checksum matches exactly these arguments; impossible calls fail with no effect; continuing prints exactly the state the calls left plus the native result.",
    note="`vard`/`argd` (Debug-formatting through the program's own fmt code) need std-linked debuggees and are not covered. Libc-free debuggees; arguments are integers and bools (pointer arguments not exercised).",
@@ -68,7 +72,11 @@ CHECKS = {
    design="3/C17(a)"),
 }
 REASONS_NOT_BUILT = "engine for this property is designed (DESIGN.md section 3) but not built yet in this round"
-NA = {"C20": "no tokio crate in the sealed cargo cache and no tokio example binary: a debuggee containing a tokio runtime cannot be built, so nothing can be enumerated (DESIGN.md section 6)"}
+NA = {
+ "C06": "needs std collections (String, Vec, HashMap, BTreeMap, Rc, ...): the corpus of this round is libc-free `no_std` (DESIGN.md section 0.2); the value-grammar generator of section 3/C06 is not built",
+ "C09": "needs fine-grained control of thread interleavings: the simulated ptrace kernel (engine E1) and the gated multi-thread debuggees (E2-mt) of the design are not built; hooks H1/H2 for E1 are in place",
+ "C19": "scope/shadowing program generator of section 3/C19 not built in this round",
+ "C20": "no tokio crate in the sealed cargo cache and no tokio example binary: a debuggee containing a tokio runtime cannot be built, so nothing can be enumerated (DESIGN.md section 6)"}
 
 checks = []
 for pid in PROPS:
@@ -98,7 +106,7 @@ m = {
  },
  "engines": [
    {"name":"E3 sched","path":"/verif/harness/src/sched.rs","serves_properties":["C12"],"kind_free_text":"hand-rolled CHESS: real threads parked at feature-gated schedule points, preemption-bounded DFS, worker subprocess per subtree"},
-   {"name":"E2 e2e","path":"/verif/harness/src/{e2x,e2w,isession,reftrace,dwarfref,corpus,c01}.rs","serves_properties":["C01","C02","C03","C04","C05","C10","C11","C14","C15","C16"],"kind_free_text":"explicit-state exploration of command histories: one interactive worker process per session running the real Debugger over generated libc-free debuggees; reference single-step tracer; canonical-state deduplication"},
+   {"name":"E2 e2e","path":"/verif/harness/src/{e2x,e2w,isession,reftrace,dwarfref,corpus,c01}.rs","serves_properties":["C01","C02","C03","C04","C05","C10","C11","C14","C15","C16","C18"],"kind_free_text":"explicit-state exploration of command histories: one interactive worker process per session running the real Debugger over generated libc-free debuggees; reference single-step tracer; canonical-state deduplication"},
    {"name":"E5 dap","path":"/verif/harness/src/{dapx,dapw,c12}.rs","serves_properties":["C12","C13"],"kind_free_text":"explicit-state exploration of DAP request histories: the real DebugSession::run on a thread inside one worker process per session, in-memory transport, real debuggee; protocol monitor + reference-trace oracle"},
    {"name":"E4 pure","path":"/verif/harness/src/{c07,c14,c17}.rs","serves_properties":["C07","C08","C14","C17"],"kind_free_text":"bounded-exhaustive / explicit-state exploration of in-process components against reference models"},
  ],
